@@ -588,7 +588,8 @@ impl Adf {
                             ));
                         }
                     }
-                    res
+                    // an inconsistent cube is only skipped, the remaining cubes still need to be checked
+                    Ok::<(), ()>(())
                 });
             log::trace!("results found so far:{}", result.len());
             // checked one alternative, we can now conclude that only the other option may work
